@@ -152,6 +152,22 @@ CLAIMED = {
              'offsets are not in the abstract file system; they are decided by the helper records on the real binary only (the seeded change that '
              'drops O_CLOEXEC is detected that way). fork/execvp/dup2 in the child are the kernel\'s.',
         technique='Lean 4 proof (program-over-calls model, arbitrary results) + helper-recorded exec observations on the real binary'),
+    'C14': dict(
+        text='Machine-checked: the lexer model (Model/Lex.lean, a transcription of yylex1/yypeek) returns a suffix of its input and every '
+             'token but end-of-input consumes at least one byte, for every byte string and mode (C14_lexer_total: the token stream of any '
+             'file is finite); every keyword of the regenerated table, every printable string and every age literal reads back as the token '
+             'it was printed from, and literals >= 2^32 are diagnosed (C14_tokens_read_back, C14_int_literals); a rejected configuration '
+             'makes the run an error whose only calls are fopen/fclose of the configuration file, under every fault plan '
+             '(C14_reject_whole). Tied to the code: the real yylex is traced token by token while the real LALR parser drives it and '
+             'compared with the model on grammar-generated, edited and mutated files; grammar-generated configurations are accepted by the '
+             'real binary; a 33-class catalogue of invalidating edits applied at every applicable position must give exit 1/75, a '
+             '"file:line:" diagnostic, an unchanged populated maildir and no opened maildir (trace); a termination sweep over mutated byte '
+             'strings with a time limit under ASan/UBSan.',
+        note='The LALR automaton generated by yacc and the semantic validation (expr_validate, macros_validate) are not modelled: acceptance '
+             'and rejection of whole files are decided on the real binary by the check; the theorem about rejection is about main() given the '
+             'parser\'s verdict. A NUL byte in the file is end-of-input for the parser (observed and modelled).',
+        technique='Lean 4 proof (lexer progress/termination and read-back; reject-as-a-whole of main) + token-level differential execution of '
+                  'the real lexer + edit catalogue and termination sweep on the real binary'),
     'C15': dict(
         text='Machine-checked: the numeric zone +-hhmm denotes +-(3600 hh + 60 mm) for hh<=23, mm<=59 and nothing else is accepted '
              '(C15_zone_offset, C15_zone_offset_only); the civil-date arithmetic of timegm is the proleptic Gregorian day count for every date '
@@ -205,7 +221,6 @@ CLAIMED.update({
 
 NOT_YET = {
     'C07': 'check under construction',
-    'C14': 'check under construction',
 }
 
 
